@@ -48,7 +48,8 @@ impl<R: Round> Context<R> {
         // adjust the signifcand so that the exponent is even and the root has exactly
         // `precision` digits (the scaled significand has 2 * precision or 2 * precision - 1 digits)
         let digits = x.digits() as isize;
-        let shift = self.precision as isize * 2 - digits - ((x.exponent - digits) & 1);
+        let parity = ((x.exponent as i128 - digits as i128) & 1) as isize; // i128: `exponent - digits` can leave isize
+        let shift = self.precision as isize * 2 - digits - parity;
         let (signif, low, low_digits) = if shift > 0 {
             (shl_digits::<B>(&x.significand, shift as usize), IBig::ZERO, 0)
         } else {
@@ -59,7 +60,7 @@ impl<R: Round> Context<R> {
 
         let (root, rem) = signif.unsigned_abs().sqrt_rem();
         let root = Sign::Positive * root;
-        let exp = (x.exponent - shift) / 2;
+        let exp = ((x.exponent as i128 - shift as i128) / 2) as isize; // i128: `exponent - shift` can leave isize
 
         let res = if rem.is_zero() && low.is_zero() {
             Approximation::Exact(root)
